@@ -77,6 +77,9 @@ pub fn check_with(tree: &Expr, threads: Option<u32>, acc: &mut Acc) {
 }
 
 pub fn check_opts(tree: &Expr, depth: bool, threads: Option<u32>, acc: &mut Acc) {
+    if tree.depth() > 20 {
+        speclib::report::enter_case(|| format!("tree of depth {} with {} leaves: {}…", tree.depth(), tree.leaves(), tree.show().chars().take(120).collect::<String>()));
+    }
     acc.states += 1;
     acc.transitions += 1;
     acc.validated += 1;
